@@ -728,6 +728,8 @@ theorem facCreatePair_moves {w w' : World} {sender : Nat} {a0 a1 : Asset} {req :
   obtain ⟨d0, _, d1, _, h⟩ := h
   split at h
   · cases h
+  split at h
+  · cases h
   injection h with h
   subst h
   exact newTok_moves rfl rfl (fun _ => rfl) rfl (fun _ _ => rfl) hfresh
@@ -780,8 +782,8 @@ theorem facAddDecimals_ledger {w w' : World} {sender denom decimals : Nat}
     subst h
     exact ⟨rfl, rfl⟩
 
-theorem facUpdateConfig_ledger {w w' : World} {sender : Nat} {o : Option Nat}
-    (h : facUpdateConfig w sender o = .ok w') : Ledger w w' := by
+theorem facUpdateConfig_ledger {w w' : World} {sender : Nat} {o tc pc : Option Nat}
+    (h : facUpdateConfig w sender o tc pc = .ok w') : Ledger w w' := by
   unfold facUpdateConfig at h
   split at h
   · cases h
@@ -789,9 +791,12 @@ theorem facUpdateConfig_ledger {w w' : World} {sender : Nat} {o : Option Nat}
   subst h
   exact ⟨rfl, rfl⟩
 
-theorem facMigratePair_ledger {w w' : World} {sender p : Nat} (h : facMigratePair w sender p = .ok w') :
+theorem facMigratePair_ledger {w w' : World} {sender p : Nat} {c : Option Nat}
+    (h : facMigratePair w sender p c = .ok w') :
     Ledger w w' := by
   unfold facMigratePair at h
+  split at h
+  · cases h
   split at h
   · cases h
   split at h
@@ -810,11 +815,11 @@ theorem facExec_moves {w w' : World} {s : Nat} {funds : List (Nat × Nat)} {m : 
   refine (attach_moves hs hf h0).trans ?_
   have htok := (attach_same h0).2
   cases m with
-  | updateConfig o => exact (facUpdateConfig_ledger h).moves
+  | updateConfig o tc pc => exact (facUpdateConfig_ledger h).moves
   | createPair a0 a1 req comm np nl =>
     exact facCreatePair_moves h (fun hF => htok ▸ hfresh hF a0 a1 req comm np nl rfl)
   | addDecimals d k => exact (facAddDecimals_ledger h).moves
-  | migratePair p => exact (facMigratePair_ledger h).moves
+  | migratePair p c => exact (facMigratePair_ledger h).moves
 
 end handlers
 
